@@ -73,7 +73,14 @@ func genC09(t *rapid.T) c09Case {
 		if sameName {
 			name = "c09"
 		}
-		text, graphs, _ := genProfileAndGraphs(t, name, rapid.IntRange(1, 3).Draw(t, "graphs"))
+		text, graphs, prof := genProfileAndGraphs(t, name, rapid.IntRange(1, 3).Draw(t, "graphs"))
+		if rapid.IntRange(0, 3).Draw(t, "documentRule") == 0 {
+			// embedded Rego adding a result of its own that does not start from a node of the target class (a
+			// statement about the document as a whole): both routes must evaluate it, whatever the data holds
+			lvl := prof.Validations[0].Level
+			text += "rego_extensions: |\n  " + lvl + "[matches] {\n    found := [x | target_class[x] with data.class as \"http://ex.org/v#NeverDeclared\"]\n    count(found) == 0\n" +
+				"    matches := error(\"" + prof.Validations[0].Name + "\", {\"@id\": \"http://ex.org/document\"}, \"the document declares nothing\", [trace(\"declared\", \"http://ex.org/v#NeverDeclared\", {\"@id\": \"http://ex.org/document\"}, {\"negated\": false})])\n  }\n"
+		}
 		c.Profiles = append(c.Profiles, text)
 		for _, g := range graphs {
 			genScale(t, g, 16)
